@@ -226,6 +226,12 @@ namespace Pistache::Tcp
 
         peers.erase(it->first);
 
+        // Writes that are still in the shared queue carry nothing but the
+        // descriptor number. Take them out now, while that number still means
+        // this peer: left in the queue they would be written to whichever
+        // connection is given the same number next.
+        handleWriteQueue();
+
         {
             // Clean up buffers
             Guard guard(toWriteLock);
